@@ -213,6 +213,7 @@ pub enum COp {
     Adjust(usize),
     Drain,
     Update { limit: Option<(usize, bool)>, wc: Option<usize> }, // (limit, newest?)
+    Handler(i64), // UpdateSettings{discard_handler}: installs a new handler with this identity (> 0)
     KillWorker(usize),
     /// the three public queries, one after the other (each waits for its reply)
     Query,
@@ -402,7 +403,8 @@ impl WorkerBuilder<HWorker, ()> for HBuilder {
     }
 }
 
-struct HDiscard;
+// the field is the handler's identity: 0 = installed at start, n > 0 = installed by the n-th COp::Handler
+struct HDiscard(i64);
 impl DiscardHandler<u64, HMsg> for HDiscard {
     fn discard(&self, reason: DiscardReason, job: &mut Job<u64, HMsg>) {
         let r = match reason {
@@ -411,7 +413,7 @@ impl DiscardHandler<u64, HMsg> for HDiscard {
             DiscardReason::Shutdown => "shutdown",
             DiscardReason::RateLimited => "ratelimited",
         };
-        obs("obs.discard", 0, vec![kvi("id", tagger(&job.msg)), kvs("reason", r)]);
+        obs("obs.discard", 0, vec![kvi("id", tagger(&job.msg)), kvs("reason", r), kvi("h", self.0)]);
     }
 }
 
@@ -488,7 +490,7 @@ where
         router,
         capacity_controller: None,
         dead_mans_switch: None,
-        discard_handler: Some(Arc::new(HDiscard)),
+        discard_handler: Some(Arc::new(HDiscard(0))),
         discard_settings: dsettings(sc.limit),
         lifecycle_hooks: Some(Box::new(HHooks { yields: sc.hook_yield })),
         worker_builder: Box::new(HBuilder { world: w.clone() }),
@@ -653,7 +655,20 @@ async fn client(sc: Arc<FScn>, w: W, f: ActorRef<FactoryMessage<u64, HMsg>>, ops
                     Some((l, true)) => (l as i64, "newest"),
                     Some((l, false)) => (l as i64, "oldest"),
                 };
-                obs("obs.update", i64::from(ok), vec![kvi("lim", lim), kvs("mode", mode), kvi("wc", wc.map(|c| c as i64).unwrap_or(-1))]);
+                obs("obs.update", i64::from(ok), vec![kvi("lim", lim), kvs("mode", mode), kvi("wc", wc.map(|c| c as i64).unwrap_or(-1)), kvi("hg", 0)]);
+            }
+            COp::Handler(g) => {
+                let req = UpdateSettingsRequest {
+                    discard_handler: Some(Some(Arc::new(HDiscard(g)))),
+                    discard_settings: None,
+                    dead_mans_switch: None,
+                    capacity_controller: None,
+                    lifecycle_hooks: None,
+                    stats: None,
+                    worker_count: None,
+                };
+                let ok = f.update_settings(req).is_ok();
+                obs("obs.update", i64::from(ok), vec![kvi("lim", -2), kvs("mode", "same"), kvi("wc", -1), kvi("hg", g)]);
             }
             COp::Query => {
                 for kind in ["q_depth", "q_active", "q_cap"] {
@@ -1049,10 +1064,12 @@ pub fn factory_micro(which: &str) -> Vec<FScn> {
         }
     }
     if all || which == "ttl" {
-        for r in [Routing::Queuer, Routing::KeyP] {
+        // a new discard handler is installed while job 2 is parked (factory queue, or the worker's own queue for key-persistent
+        // and sticky routing): its expiry, found much later, is reported to the handler installed last
+        for r in [Routing::Queuer, Routing::KeyP, Routing::Sticky] {
             let mut s = base_scn(r, 1);
             s.horizon_ms = 320;
-            s.clients = vec![vec![job(1, 1, Beh::Ok, 150, false, None), job(2, 1, Beh::Ok, 0, true, Some(20)), job(3, 2, Beh::Ok, 0, false, Some(500)), COp::Sleep(30), job(4, 1, Beh::Ok, 0, true, Some(10)),
+            s.clients = vec![vec![job(1, 1, Beh::Ok, 150, false, None), job(2, 1, Beh::Ok, 0, true, Some(20)), job(3, 2, Beh::Ok, 0, false, Some(500)), COp::Handler(1), COp::Sleep(30), job(4, 1, Beh::Ok, 0, true, Some(10)),
                                   COp::Sleep(130), job(5, 2, Beh::Ok, 0, false, Some(0))]];
             v.push(s);
         }
